@@ -285,3 +285,110 @@ def convert(a, w, ow, mode="RN"):
     if x[0] == "zero":
         return zero(x[1], ow)
     return encode(x[1], ow, mode)
+
+
+# ---------------------------------------------------------------------------
+# <cmath> reference functions on bit patterns (exact), for the C12 specifications
+
+def _sign(v, w):
+    return v >> (w - 1)
+
+
+def c_fmax(a, b, w, larger=True):
+    x, y = decode(a, w), decode(b, w)
+    if x[0] == "nan":
+        return b
+    if y[0] == "nan":
+        return a
+    def val(d):
+        if d[0] == "inf":
+            return Fraction(10) ** 6000 * (-1 if d[1] else 1)
+        if d[0] == "zero":
+            return Fraction(0)
+        return d[1]
+    vx, vy = val(x), val(y)
+    if vx == vy:
+        return a
+    if larger:
+        return a if vx > vy else b
+    return a if vx < vy else b
+
+
+def c_fdim(a, b, w, mode="RN"):
+    x, y = decode(a, w), decode(b, w)
+    if x[0] == "nan" or y[0] == "nan":
+        return qnan(w)
+    d = add(a, b, w, mode, sub=True)
+    dd = decode(d, w)
+    if dd[0] == "nan":
+        return zero(0, w)          # inf - inf with x == y: x > y is false
+    if dd[0] == "zero" or (dd[0] == "inf" and dd[1]) or (dd[0] == "num" and dd[1] < 0):
+        return zero(0, w)
+    return d
+
+
+def c_frac(a, w, mode="RN"):
+    x = decode(a, w)
+    if x[0] == "nan":
+        return qnan(w)
+    if x[0] == "inf":
+        return qnan(w)
+    if x[0] == "zero":
+        return a
+    return add(a, to_integral(a, w, "trunc"), w, mode, sub=True)
+
+
+def _exponent(q):
+    """floor(log2 |q|) for a non-zero rational"""
+    a = abs(q)
+    e = a.numerator.bit_length() - a.denominator.bit_length()
+    if Fraction(2) ** e > a:
+        e -= 1
+    elif Fraction(2) ** (e + 1) <= a:
+        e += 1
+    return e
+
+
+def c_ilogb(a, w, ow):
+    x = decode(a, w)
+    M = (1 << ow) - 1
+    if x[0] == "zero" or x[0] == "nan":
+        return (-(1 << 31)) & M          # FP_ILOGB0 == FP_ILOGBNAN == INT_MIN (glibc, x86-64)
+    if x[0] == "inf":
+        return (1 << 31) - 1
+    return _exponent(x[1]) & M
+
+
+def c_logb(a, w):
+    x = decode(a, w)
+    if x[0] == "nan":
+        return qnan(w)
+    if x[0] == "zero":
+        return inf(1, w)
+    if x[0] == "inf":
+        return inf(0, w)
+    return encode(Fraction(_exponent(x[1])), w)
+
+
+def c_frexp_m(a, w):
+    x = decode(a, w)
+    if x[0] != "num":
+        return a
+    e = _exponent(x[1]) + 1
+    return encode(x[1] / (Fraction(2) ** e), w)
+
+
+def c_frexp_e(a, w, ow):
+    x = decode(a, w)
+    if x[0] != "num":
+        return 0
+    return (_exponent(x[1]) + 1) & ((1 << ow) - 1)
+
+
+def c_ldexp(a, e, w, ew, mode="RN"):
+    x = decode(a, w)
+    if x[0] != "num":
+        return a
+    n = e - (1 << ew) if e >> (ew - 1) else e
+    n = max(-100000, min(100000, n))
+    return encode(x[1] * (Fraction(2) ** n), w, mode)
